@@ -120,6 +120,19 @@ class Gateway:
             self._emit(exp, (nid, 255, T.INTERNAL, 0, 19, ""))
         return ok
 
+    def restart(self):
+        """A new gateway object loaded from the persistence file: the tree survives, everything transient
+        (smart-sleep bookkeeping, withheld replies, reboot requests, firmware and sessions, settings) starts afresh."""
+        self.metric = True
+        self.firmware = {}
+        for node in self.nodes.values():
+            node.covered = set()
+            node.hold = []
+            node.desired = {}
+            node.reboot = False
+            node.ota = {"idle"}
+            node.fw = None
+
     def can_allocate(self):
         """Even the simplest allocator (largest known id + 1) finds a free id."""
         return (max(self.nodes) if self.nodes else 0) < T.MAX_NODE
